@@ -37,4 +37,29 @@ def evalSuite (args : List String) : String :=
     | _, _ => "bad-op"
   | _ => "bad-op"
 
+def showChoice : Choice → String
+  | .propose p d => s!"proposed={p.auth}/{p.integ}/{p.conf} discovery={bool d} res={if supportedSuite p then "ok" else "err"}"
+  | .noSupported => "proposed=none discovery=1 res=nosuite"
+  | .discoveryFailed => "proposed=none discovery=1 res=err"
+
+def parseAlgs (s : String) : Option (List Nat) := if s == "-" then some [] else (s.splitOn "+").mapM String.toNat?
+
+def parseRecord (s : String) : Option Spec.Enum.Record :=
+  match s.splitOn "," with
+  | [id, iana, auth, is, cs] =>
+    match id.toNat?, (if iana == "-" then some none else iana.toNat?.map some), auth.toNat?, parseAlgs is, parseAlgs cs with
+    | some id, some iana, some auth, some is, some cs => some { id := id, iana := iana, auth := auth, integ := is, conf := cs }
+    | _, _, _, _, _ => none
+  | _ => none
+
+/-- `suiterec <prefs> <records>`: the BMC holds these cipher suite records; discovery is executed over its pages -/
+def evalSuiteRec (args : List String) : String :=
+  match args with
+  | [prefs, recs] =>
+    match parseSuites prefs, (recs.splitOn ";").mapM parseRecord with
+    | some prefs, some rs =>
+      showChoice (determineFull prefs (Enum.pageOfBody fun i => some (Spec.Enum.pageBody 0x0E (Spec.Enum.encodeRecords rs) i)))
+    | _, _ => "bad-op"
+  | _ => "bad-op"
+
 end Bmc.Driver
